@@ -35,7 +35,7 @@ func findExternal(name string, fn *ssa.Function) externalFn {
 	}
 	if strings.Contains(name, "[") {
 		for _, pe := range prefixExternals {
-			if strings.HasPrefix(name, pe.prefix) && strings.HasSuffix(name, pe.suffix) {
+			if strings.HasPrefix(name, pe.prefix) && (strings.HasSuffix(name, pe.suffix) || strings.Contains(name, pe.suffix+"[")) {
 				return pe.fn
 			}
 		}
@@ -224,6 +224,13 @@ func init() {
 		},
 		"internal/stringslite.Clone": func(fr *frame, args []value) value { return args[0] },
 		"strings.Clone":              func(fr *frame, args []value) value { return args[0] },
+		"go/ast.IsExported": func(fr *frame, args []value) value {
+			s, ok := args[0].(string)
+			if !ok {
+				unsupported("ast.IsExported on symbolic name")
+			}
+			return exported(s)
+		},
 		"unsafe.String": func(fr *frame, args []value) value {
 			return externals["unsafe.String"](fr, args)
 		},
